@@ -11,9 +11,9 @@ package jsonconfig
 //@ func (*Config).TimeoutOnEOF
 //@ requires config != nil
 //@ arith wrap
-//@ ensures[C13] config.TimeoutOnEOFMilliSeconds <= 1<<40 ==> result == config.TimeoutOnEOFMilliSeconds * 1000000
+//@ ensures[C13,C09] config.TimeoutOnEOFMilliSeconds <= 1<<40 ==> result == config.TimeoutOnEOFMilliSeconds * 1000000
 
 //@ func (*Config).WaitTimeOnEOF
 //@ requires config != nil
 //@ arith wrap
-//@ ensures[C13] config.WaitTimeOnEOFMilliseconds <= 1<<40 ==> result == config.WaitTimeOnEOFMilliseconds * 1000000
+//@ ensures[C13,C09] config.WaitTimeOnEOFMilliseconds <= 1<<40 ==> result == config.WaitTimeOnEOFMilliseconds * 1000000
